@@ -656,7 +656,9 @@ class simulation_model():
             return mymemo[arg]
         else:
             result = self.equations[equation](arg)
-            mymemo[arg] = result
+            # the equations are simulated by one thread per equation: keep the value that was stored
+            # first, so that every caller sees the same value (matters for stochastic equations)
+            result = mymemo.setdefault(arg, result)
 
         return result
 
